@@ -47,3 +47,12 @@ Theorem C14_rearranged : forall d d' obs cov,
   ids d = ids d' -> (forall i, filter (has_id i) d = filter (has_id i) d') ->
   routed d obs cov = routed d' obs cov.
 Proof. exact routed_rearranged. Qed.
+
+(* ---- row labels (the pandas index) carry no meaning ---- *)
+(* chi selects rows with boolean masks (Model/Problem.v works on the rows, never on their labels); selecting by the
+   LABELS of the matching rows is the same thing only when labels are unique *)
+Theorem C14_label_selection_with_unique_labels : forall (p : row -> bool) (f : lframe),
+  NoDup (map fst f) -> label_select p f = mask_select p f.
+Proof. exact label_select_unique. Qed.
+Theorem C14_label_selection_refuted : exists (p : row -> bool) (f : lframe), label_select p f <> mask_select p f.
+Proof. exact label_select_refuted. Qed.
